@@ -86,8 +86,12 @@ CLAIMED = {
          "that compute_neighborlist records a pair only for index < atomIndex within the squared cutoff and mirrors every recorded pair exactly once after the parallel search (symmetric, irreflexive, duplicate-free by construction); that under periodic "
          "boundary conditions the cell list is built and searched on positions wrapped into the primary cell; and that the wrappers hand over positions and box of the same frame with every argument in its role. "
          "Which voxels and x-ranges the cell list visits is arithmetic on run-time values and is not decided.", _NOTE, "DESIGN.md §4 C10"),
+ "C09": ("abstract interpretation with a difference-taint lattice (CONST < INV < BOX < LAT < REL < ABS) over the clang AST of every geometry kernel and over the numpy idioms of the Python descriptors",
+         "Decides the structural core of translation and lattice-translation invariance that the property itself names: in 20 C/C++ kernels and 12 Python functions every value derived from a position array reaches a product, norm, "
+         "math function, comparison with a non-position or result array only after the subtraction of two positions (or of their mean / centre of geometry); every rounding call of a minimum-image reduction sees a difference, not a position; "
+         "the cell list hashes wrapped positions. Rotation invariance and float32 cancellation at large offsets are numerical and are not decided.", _NOTE, "DESIGN.md §4 C09"),
 }
 _PENDING = "check not built yet in this round (design in DESIGN.md §4); will be claimed when its rules run clean"
-NA = {k: _PENDING for k in ["C09"]}
+NA = {}
 NA["C16"] = ("every clause is numerical equality of computed arrays with closed-form expressions; no structural "
              "necessary condition covers more than one of the fifteen functions (DESIGN.md §5)")
